@@ -630,9 +630,20 @@ class ClientTls(Client):
         except OSError as ex:
             if ex.errno in (ssl.SSL_ERROR_WANT_READ, ssl.SSL_ERROR_WANT_WRITE):
                 return False
-            elif ex.errno in (ssl.SSL_ERROR_EOF, ):
-                self.close()
-                raise   # should give up here nicely
+            elif ex.errno in (ssl.SSL_ERROR_EOF,
+                              errno.ECONNABORTED,
+                              errno.ECONNRESET,
+                              errno.EPIPE,
+                              errno.ENETRESET,
+                              errno.ENETUNREACH,
+                              errno.EHOSTUNREACH,
+                              errno.ENETDOWN,
+                              errno.EHOSTDOWN,
+                              errno.ETIMEDOUT,
+                              errno.ECONNREFUSED):
+                self.close()  # server side aborted the handshake so give up nicely
+                self.cutoff = True  # this signals need to reopen connection
+                return False  # connect is retried on later serviceConnect
             else:
                 self.close()
                 raise
